@@ -54,9 +54,16 @@ Lifetimes == {"finite", "unlimited_refresh"}
 (* the endpoint that consumes a code, a refresh token or a device code also has to MINT, which needs a current
    secret; introspection of an access token does not *)
 Endpoint(k, m, c) == Accept(m, c) /\ (k = "at" \/ c.global # "")
-Rows == { [kind |-> k, mut |-> m, cfg |-> c, life |-> l, accept |-> Accept(m, c), endpoint |-> Endpoint(k, m, c), undet |-> FALSE] :
-            k \in Kinds, m \in Mutations, c \in Configs, l \in Lifetimes }
-        \cup { [kind |-> k, mut |-> m, cfg |-> c, life |-> "finite", accept |-> FALSE, endpoint |-> FALSE, undet |-> TRUE] :
+(* configured entropy of the random part in bytes (0 = not configured): freshly minted credentials carry at least the
+   configured entropy and never less than the 32-byte floor; varied on the untouched presentations only *)
+Entropies == {0, 8, 48}
+KeyMin(e) == IF e > 32 THEN e ELSE 32
+Rows == { [kind |-> k, mut |-> m, cfg |-> c, life |-> l, entropy |-> e, keymin |-> KeyMin(e),
+           accept |-> Accept(m, c), endpoint |-> Endpoint(k, m, c), undet |-> FALSE] :
+            k \in Kinds, m \in Mutations, c \in Configs, l \in Lifetimes, e \in Entropies }
+Valid(r) == r.mut = "identity" \/ r.entropy = 0
+RowsV == { r \in Rows : Valid(r) }
+        \cup { [kind |-> k, mut |-> m, cfg |-> c, life |-> "finite", entropy |-> 0, keymin |-> 32, accept |-> FALSE, endpoint |-> FALSE, undet |-> TRUE] :
             k \in Kinds, m \in PrefixMutations, c \in {x \in Configs : x.name = "same"} }
 
 (* JWT access tokens: only an untouched token signed by the configured key with its asymmetric algorithm *)
@@ -66,10 +73,11 @@ JwtMutations == { "identity", "alg_none", "alg_none_signature_kept", "hs256_with
 JwtRows == { [kind |-> "jwt", mut |-> m, accept |-> m = "identity"] : m \in JwtMutations }
 
 ASSUME \A c \in Configs : Accept("identity", c) <=> c.name \in {"same", "rotated_1", "rotated_last", "rotated_first", "short_after", "prefix_32_equal", "rotated_only", "rotated_only_last"}
-ASSUME \A r \in Rows : r.mut # "identity" => ~r.accept
-ASSUME \A r \in Rows : r.endpoint => r.accept
-ASSUME PrintT(<<"ROWS", Cardinality(Rows), Cardinality(JwtRows)>>)
-ASSUME JsonSerialize(IOEnv.VERIF_TABLE_HMAC, SetToSeq(Rows))
+ASSUME \A r \in RowsV : r.mut # "identity" => ~r.accept
+ASSUME \A r \in RowsV : r.endpoint => r.accept
+ASSUME \A r \in RowsV : r.keymin >= 32 /\ r.keymin >= r.entropy
+ASSUME PrintT(<<"ROWS", Cardinality(RowsV), Cardinality(JwtRows)>>)
+ASSUME JsonSerialize(IOEnv.VERIF_TABLE_HMAC, SetToSeq(RowsV))
 ASSUME JsonSerialize(IOEnv.VERIF_TABLE_JWT, SetToSeq(JwtRows))
 
 VARIABLE x
